@@ -157,6 +157,12 @@ def streams_for(ctx, n):
         if rej:
             s = b"".join(rng.choice(rej) for _ in range(k)) + chunk_with_top(n, rng.randrange(0, n - 1), rng.getrandbits(8 * L)) + bytes([rng.getrandbits(8)])
             res.append(("rejected*%d" % k, s))
+    # LONG runs of rejected chunks (a retry cap, a "give up and reduce modulo" fallback or a counter overflow only shows after
+    # many consecutive rejections): 40, 130, 300 and 1100 rejected chunks, then an accepted one
+    if rej:
+        for k in (40, 130, 300, 1100):
+            s = b"".join(rej[i % len(rej)] for i in range(k)) + chunk_with_top(n, rng.randrange(0, n - 1), rng.getrandbits(8 * L)) + bytes([rng.getrandbits(8)])
+            res.append(("rejected*%d" % k, s))
     for _ in range(2):
         res.append(("random", bytes(rng.getrandbits(8) for _ in range(2 * L))))
     return res
